@@ -76,13 +76,11 @@ func n6decode(f func() error) string {
 	}
 	ch := make(chan string, 1)
 	go func() { ch <- n6call(f) }()
-	select {
-	case c := <-ch:
+	if c, ok := recvBusyAware(ch, 3*time.Second); ok {
 		return c
-	case <-time.After(3 * time.Second):
-		n6stuck++
-		return "stuck"
 	}
+	n6stuck++
+	return "stuck"
 }
 
 // n6render runs a renderer and reports ok or panic.
